@@ -143,6 +143,12 @@ fn gen_class_case(src: &mut Src, _t: Tier) -> Case {
     };
     let quant = src.chance(1, 5);
     let body = if quant { Node::Quant { body: Box::new(class), min: 1, max: Some(2), lazy: false, braces: true } } else { class };
+    // a fifth of the classes sit in a modifier group that switches i on or off locally
+    let body = match src.below(10) {
+        0 => Node::Mods { on: 1, off: 0, body: Box::new(body) },
+        1 => Node::Mods { on: 0, off: 1, body: Box::new(body) },
+        _ => body,
+    };
     let node = Node::Cat(vec![Node::Bol, body, Node::Eol]);
     let pat = Printer::print(&node, fl.mode);
     let probes = probes_for(&mentioned, &strs, fl.unicode(), src);
